@@ -33,7 +33,7 @@ def plan(tier, seed):
 
 
 def unit_timeout(tier):
-    return 240 if tier == "quick" else 480
+    return 120 if tier == "quick" else 480
 
 
 def floors(tier):
